@@ -137,9 +137,17 @@ def gen_jobs(ctx):
         return (pat * (n // len(pat) + 1))[:n]
     small = lambda k: {"name": "s%d" % k, "help": "h", "type": "COUNTER", "metrics": [{"labels": [["l", "v"]], "counter": F(float(k))}]}
     sizes = [(700, "ab\\\n\"é"), (9000, "ab\\\n\"é"), (3000, "測試値"), (70000, "xyz ")] if ctx.quick else [(8191, "a"), (8192, "a"), (8193, "é"), (9000, "ab\\\n\"é"), (3000, "測試値"), (33000, "q\n"), (70000, "xyz "), (300000, "0123456789")]
-    # sizes that put the encoded family right at a length-prefix boundary of the protobuf framing (127/128 and 16383/16384 bytes)
-    sizes += [(n, "a") for n in (list(range(80, 110)) + list(range(16330, 16370)) if not ctx.quick else list(range(88, 100)) + list(range(16345, 16353)))]
-    for n, pat in sizes:
+    # sizes that put the ENCODED family (protobuf: 33 + varint_len(H) + H bytes for the "bighelp" family below) right at a power of
+    # two: length-prefix boundaries (127/128, 16383/16384) and the sizes of typical internal buffers (256 ... 65536)
+    def help_len_for(body):
+        for vl in (1, 2, 3):
+            h = body - 33 - vl
+            if h >= 0 and (1 if h < 128 else 2 if h < 16384 else 3) == vl:
+                return h
+        return None
+    boundary = sorted({help_len_for(2 ** k + d) for k in (range(7, 15) if ctx.quick else range(7, 18)) for d in (-2, -1, 0, 1)} - {None})
+    sizes = [(n, pat, True) for n, pat in sizes] + [(n, "a", False) for n in boundary]
+    for n, pat, both in sizes:
         # up to ~1 kB the TLA+ parser reads the text itself; beyond that (its character-level recursion is quadratic) the text must
         # equal the parser-verified text of the same families with a short placeholder in place of the long string, the placeholder
         # replaced by the escaped long string (escaping is a per-character homomorphism: \\ -> \\\\, newline -> \\n, in label values " -> \\")
@@ -147,7 +155,8 @@ def gen_jobs(ctx):
             tag = "large" if huge is None else "huge-" + huge
             extra = {} if huge is None else {"pair": n, "big": big(n, pat), "placeholder": "PLACEHOLDER_%d_" % n}
             jobs.append(dict({"src": {"lit": [small(1), {"name": "bighelp", "help": st, "type": "GAUGE", "metrics": [{"labels": [["l", "v"]], "gauge": F(1.5)}]}, small(2)]}, "tag": tag, "where": "help"}, **extra))
-            jobs.append(dict({"src": {"lit": [small(1), small(2), {"name": "biglabel", "help": "h", "type": "COUNTER", "metrics": [{"labels": [["a", "x"], ["l", st], ["z", "y"]], "counter": F(2.0)}, {"labels": [["a", "x2"], ["l", "short"], ["z", "y"]], "counter": F(3.0)}]}, small(3)]}, "tag": tag, "where": "label"}, **extra))
+            if both:
+                jobs.append(dict({"src": {"lit": [small(1), small(2), {"name": "biglabel", "help": "h", "type": "COUNTER", "metrics": [{"labels": [["a", "x"], ["l", st], ["z", "y"]], "counter": F(2.0)}, {"labels": [["a", "x2"], ["l", "short"], ["z", "y"]], "counter": F(3.0)}]}, small(3)]}, "tag": tag, "where": "label"}, **extra))
     for nm in ((700,) if ctx.quick else (700, 5000)):
         many = {"name": "many", "help": "h", "type": "COUNTER", "metrics": [{"labels": [["i", "%06d" % k], ["pad", "p" * 40]], "counter": F(float(k))} for k in range(nm)]}
         jobs.append({"src": {"lit": [small(1), small(2), many, small(3), {"name": "hh", "help": "x", "type": "HISTOGRAM", "metrics": [{"labels": [], "hist": {"count": 3, "sum": F(4.5), "b": [[F(1.0), 1], [F(2.0), 3]]}}]}]}, "tag": "large"})
